@@ -15,7 +15,7 @@ import (
 )
 
 type Op struct {
-	Op    string          `json:"op"` // U update, SA sendall, W wait for the updater's own save, S save (mode direct), R start a second dastard on the directory, K kill during the last save and start again (mode direct), SAQ SendAllStatus through the real RPC method while the updater's queue is full (mode hist), SRC start a source / start writing / stop the source through the real SourceControl (mode hist; N=1: WriteControl Stop first)
+	Op    string          `json:"op"` // U update, SA sendall, W wait for the updater's own save, S save (mode direct), R start a second dastard on the directory, K kill during the last save and start again (mode direct), SAQ SendAllStatus through the real RPC method while the updater's queue is full (mode hist), SRC start a source / start writing / stop the source through the real SourceControl (mode hist; trigger requests for channels 0-1 then 2-3; N odd: WriteControl Stop first; N>=2: a third trigger request for channel 1)
 	Tag   string          `json:"tag,omitempty"`
 	Typed bool            `json:"typed,omitempty"`
 	Val   json.RawMessage `json:"val,omitempty"`
